@@ -116,13 +116,14 @@ Section Edit.
         * right. exists q. split; [right; exact Hq|exact E].
   Qed.
 
-  Lemma cleanup_import_step id names tree imps pb :
-    (forall j, In j (cleanup_import id names tree imps pb) -> In j imps) /\
-    (forall j, In j imps -> i_path j <> fst pb -> In j (cleanup_import id names tree imps pb)).
+  Lemma cleanup_import_step bl dt plus id names tree imps pb :
+    (forall j, In j (cleanup_import bl dt plus id names tree imps pb) -> In j imps) /\
+    (forall j, In j imps -> i_path j <> fst pb -> In j (cleanup_import bl dt plus id names tree imps pb)).
   Proof.
     unfold cleanup_import.
     destruct (match assoc_ikey (fst pb, fst (snd pb)) (id_bound id) with
               | Some (n, true) => (n, None) | Some (n, false) => (n, Some n) | None => (snd (snd pb), None) end) as [pk im].
+    match goal with |- context [if ?c then _ else _] => destruct c end; [split; auto|].
     match goal with |- context [if ?c then _ else _] => destruct c end.
     - split.
       + intros j Hj. eapply (del_import_sub mk). exact Hj.
@@ -130,14 +131,14 @@ Section Edit.
     - split; auto.
   Qed.
 
-  Lemma fold_cleanup id names tree ms : forall imps,
-    (forall j, In j (fold_left (cleanup_import id names tree) ms imps) -> In j imps) /\
+  Lemma fold_cleanup bl dt plus id names tree ms : forall imps,
+    (forall j, In j (fold_left (cleanup_import bl dt plus id names tree) ms imps) -> In j imps) /\
     (forall j, In j imps -> (forall pb, In pb ms -> i_path j <> fst pb) ->
-               In j (fold_left (cleanup_import id names tree) ms imps)).
+               In j (fold_left (cleanup_import bl dt plus id names tree) ms imps)).
   Proof.
     induction ms as [|pb ms IH]; intros imps; simpl; [split; auto|].
-    destruct (cleanup_import_step id names tree imps pb) as [S1 S2].
-    destruct (IH (cleanup_import id names tree imps pb)) as [I1 I2]. split.
+    destruct (cleanup_import_step bl dt plus id names tree imps pb) as [S1 S2].
+    destruct (IH (cleanup_import bl dt plus id names tree imps pb)) as [I1 I2]. split.
     - intros j Hj. apply S1, I1, Hj.
     - intros j Hj Hn. apply I2; [apply S2; [exact Hj|apply Hn; left; reflexivity]|].
       intros pb' Hpb. apply Hn. right. exact Hpb.
@@ -161,7 +162,7 @@ Lemma apply_change_ok_inv c g g' :
   exists dinit id imps1 names tree1,
     match_imports (mk_of c) (ch_minus_imports c) (g_imports g) d0 {| id_bound := []; id_matched := [] |} = Some (dinit, id) /\
     fold_left (add_plus_import (mk_of c) id dinit) (ch_plus_imports c) (Ok (g_imports g, [])) = Ok (imps1, names) /\
-    g_imports g' = fold_left (cleanup_import id names tree1) (id_matched id) imps1.
+    g_imports g' = fold_left (cleanup_import (ch_blank c) (ch_dot c) (ch_plus_imports c) id names tree1) (id_matched id) imps1.
 Proof.
   unfold apply_change. intros H.
   destruct (negb _); [discriminate|].
@@ -179,7 +180,7 @@ Theorem imports_unmentioned_kept c g g' j :
   In j (g_imports g').
 Proof.
   intros H Hj Hn. apply apply_change_ok_inv in H as [dinit [id [imps1 [names [tree1 [M [A E]]]]]]].
-  rewrite E. destruct (fold_cleanup (mk_of c) id names tree1 (id_matched id) imps1) as [_ K]. apply K.
+  rewrite E. destruct (fold_cleanup (mk_of c) (ch_blank c) (ch_dot c) (ch_plus_imports c) id names tree1 (id_matched id) imps1) as [_ K]. apply K.
   - apply fold_add_plus in A as [A1 _]. apply A1. exact Hj.
   - intros pb Hpb. apply match_imports_matched in M. simpl in M. rewrite M in Hpb.
     apply in_map_iff in Hpb as [p [<- Hp]]. simpl. intros Eq. apply (Hn p Hp). auto.
@@ -191,6 +192,6 @@ Theorem imports_nothing_unmentioned_added c g g' j :
   In j (g_imports g) \/ exists p, In p (ch_plus_imports c) /\ i_path j = p_path p.
 Proof.
   intros H Hj. apply apply_change_ok_inv in H as [dinit [id [imps1 [names [tree1 [M [A E]]]]]]].
-  rewrite E in Hj. destruct (fold_cleanup (mk_of c) id names tree1 (id_matched id) imps1) as [K _]. apply K in Hj.
+  rewrite E in Hj. destruct (fold_cleanup (mk_of c) (ch_blank c) (ch_dot c) (ch_plus_imports c) id names tree1 (id_matched id) imps1) as [K _]. apply K in Hj.
   apply fold_add_plus in A as [_ A2]. apply A2. exact Hj.
 Qed.
